@@ -814,6 +814,62 @@ pub open spec fn infos_small(infos: Option<&[StoreInfo]>) -> bool {
     infos is Some ==> forall|i: int| 0 <= i < infos->Some_0@.len() && (#[trigger] infos->Some_0@[i]).data is Some
         ==> rec_size(infos->Some_0@[i].data->Some_0@) <= 0xffff_ffff_ffff
 }
+// ---- byte offsets: one consistent assignment of block sizes ----
+/// bytes stored before block `i`, under one assignment of sizes to blocks.  Uninterpreted: whatever is proved about it holds
+/// for every assignment (the two axioms only say that it is a prefix sum of non-negative sizes).
+pub uninterp spec fn boff(i: int) -> int;
+#[verifier::external_body]
+pub broadcast proof fn axiom_boff_mono(i: int, j: int)
+    requires 0 <= i <= j
+    ensures 0 <= #[trigger] boff(i) <= #[trigger] boff(j), boff(0) == 0
+{}
+/// number of the first block below the tree node `index`
+pub open spec fn leaf_no(index: u64) -> int { offset_of(index) * p2(depth_of(index)) }
+/// bytes of the blocks below the tree node `index`
+pub open spec fn span_len(index: u64) -> int { boff(leaf_no(index) + p2(depth_of(index))) - boff(leaf_no(index)) }
+pub proof fn lemma_leaf_no_even(index: u64)
+    requires index % 2 == 0
+    ensures leaf_no(index) == index / 2, depth_of(index) == 0
+{
+    flat_tree::lemma_node_of_index(index);
+    let d = depth_of(index); let o = offset_of(index);
+    flat_tree::lemma_parity(d, o);
+    assert(p2(0) == 1); assert(p2(1) == 2);
+}
+/// root k of a mountain range spans the blocks from root_start(k)/2 to root_start(k+1)/2
+pub proof fn lemma_root_span(roots: Seq<Node>, k: int)
+    requires 0 <= k < roots.len(), mr_at(roots, k), root_start(roots, k) % 2 == 0, root_start(roots, k) >= 0
+    ensures leaf_no(roots[k].index) == root_start(roots, k) / 2,
+        leaf_no(roots[k].index) + p2(depth_of(roots[k].index)) == root_start(roots, k + 1) / 2,
+        span_len(roots[k].index) == boff(root_start(roots, k + 1) / 2) - boff(root_start(roots, k) / 2)
+{
+    let idx = roots[k].index;
+    flat_tree::lemma_node_of_index(idx);
+    let d = depth_of(idx); let o = offset_of(idx);
+    let st = root_start(roots, k);
+    assert(p2(d + 1) == 2 * p2(d));
+    assert(o * p2(d + 1) == 2 * (o * p2(d))) by (nonlinear_arith) requires p2(d + 1) == 2 * p2(d);
+    assert(root_start(roots, k + 1) == st + p2(d + 1));
+}
+/// a node (d, o): its first block and its children's
+pub proof fn lemma_child_leaf_no(d: nat, o: int)
+    requires d > 0, o >= 0
+    ensures (2 * o) * p2((d - 1) as nat) == o * p2(d), (2 * o + 1) * p2((d - 1) as nat) == o * p2(d) + p2((d - 1) as nat),
+        (2 * o + 1) * p2((d - 1) as nat) + p2((d - 1) as nat) == o * p2(d) + p2(d)
+{
+    let q = p2((d - 1) as nat);
+    assert(p2(d) == 2 * q);
+    assert((2 * o) * q == o * (2 * q)) by (nonlinear_arith);
+    assert((2 * o + 1) * q == o * (2 * q) + q) by (nonlinear_arith);
+}
+/// every 40-byte record read from the local tree store carries the size of the blocks below its node
+pub open spec fn infos_sized(infos: Option<&[StoreInfo]>) -> bool {
+    infos is Some ==> forall|i: int| 0 <= i < infos->Some_0@.len() && (#[trigger] infos->Some_0@[i]).data is Some
+        ==> rec_size(infos->Some_0@[i].data->Some_0@) == span_len((infos->Some_0@[i].index / 40) as u64)
+}
+pub open spec fn map_sized(nodes: IntMap<Option<Node>>) -> bool {
+    forall|k: u64| #![trigger nodes@[k]] nodes@.contains_key(k) && nodes@[k] is Some ==> nodes@[k]->Some_0.length == span_len(k)
+}
 /// every node of the map is stored under its own index
 pub open spec fn map_keyed(nodes: IntMap<Option<Node>>) -> bool {
     forall|k: u64| #![trigger nodes@[k]] nodes@.contains_key(k) && nodes@[k] is Some ==> nodes@[k]->Some_0.index == k
@@ -890,13 +946,16 @@ impl MerkleTree {
         *final(self) == *old(self), r is Ok,
         // records whose size field is below 2^48 give nodes whose length is
         infos_small(infos) ==> map_small(r->Ok_0),
-        map_keyed(r->Ok_0)
+        map_keyed(r->Ok_0),
+        // ... and records that carry the sizes of one assignment give nodes that do
+        infos_sized(infos) ==> map_sized(r->Ok_0)
     sub `for info in infos \{` => `for info in it: infos.iter() {`
     loop 1:
         invariant
             *self == *old(self), map_keyed(nodes),
             forall|i: int| 0 <= i < infos@.len() ==> ((#[trigger] infos@[i]).miss || (infos@[i].data is Some && infos@[i].data->Some_0@.len() >= 8)),
-            infos_small(Some(infos)) ==> map_small(nodes)
+            infos_small(Some(infos)) ==> map_small(nodes),
+            infos_sized(Some(infos)) ==> map_sized(nodes)
     after `let node = node_from_bytes(&index, info.data.as_ref().unwrap())?;`:
         proof { lemma_rec_size(node.length, info.data->Some_0@); }
     @*/
